@@ -588,8 +588,22 @@ class Prop(SeqProp):
             return self.run_recfile_impl(case)
         cl = classes(fresh=True)
         out = []
+
+        def out_of_domain(k):
+            """calls with values outside the property's domain, between the operations: whatever they return or raise, the
+            operations that follow are not affected (the record classes share a class-level buffer)"""
+            pokes = [lambda: cl["C2"]("two\nlines", "x").save(), lambda: cl["T3"]("a", "cr\rinside", "b").save(),
+                     lambda: cl["C2"](None, 5).save(), lambda: cl["C1"].load('"unterminated'), lambda: cl["T3"].load("too\tfew"),
+                     lambda: cl["J"].load("{not json"), lambda: cl["J"](float("nan"), {1, 2}, object()).save()]
+            try:
+                pokes[k % len(pokes)]()
+            except Exception:  # noqa
+                pass
+
         for op in case.ops:
             w = op.split()
+            if len(out) % 3 == 1:
+                out_of_domain(len(out))
             try:
                 if w[0] in ("save", "write"):
                     fields = [dec_str(x) for x in w[2:]]
